@@ -118,6 +118,23 @@ Definition finit_ok_b (p : evp) (objs : list obj) (pop : list uid) : bool :=
 Definition sel_in_b (n k : nat) (sel : list nat) : bool :=
   Nat.eqb (length sel) k && forallb (fun i => i <? n) sel.
 
+(* the static selection contract of the theorems (sel_in / sels_plus) *)
+Definition sels_ok_b (k : fkind) (n mu lam : nat) (sels : list (list nat)) : bool :=
+  match k with
+  | FSimple => forallb (sel_in_b n n) sels
+  | FPlus => match sels with
+             | [] => true
+             | s1 :: r => sel_in_b (n + lam) mu s1 && forallb (sel_in_b (mu + lam) mu) r
+             end
+  | FComma => forallb (sel_in_b lam mu) sels
+  end.
+
+(* C02's hypothesis for varAnd: no recorded mate call returned one object in both positions *)
+Definition ret_distinct_b (r1 r2 : V.ret G F) : bool :=
+  match r1, r2 with V.RArg1, V.RArg1 => false | V.RArg2, V.RArg2 => false | _, _ => true end.
+Definition script_ok_b (script : list opent) : bool :=
+  forallb (fun e => match e with OMate _ _ _ _ r1 r2 => ret_distinct_b r1 r2 | OMut _ _ _ => true end) script.
+
 (* generation by generation, so that the list toolbox.select was called with can be compared *)
 Fixpoint fcheck_gens (step : nat -> fst8 -> list nat -> @fres G F float) (k : fkind) (mu : nat)
          (gen : nat) (s : fst8) (sels : list obs_sel) : option fst8 :=
@@ -154,7 +171,8 @@ Definition check (c : case) : bool :=
   | CFull k ngen p w mu lambda_ cxpb mutpb objs pop draws script sels o_calls o_log o_shown o_final o_inplace =>
       let h0 := heap_of objs in
       let s0 := fgen0 (ev_fun p) (wfle w) (finit h0 draws pop) in
-      finit_ok_b p objs pop &&
+      finit_ok_b p objs pop && script_ok_b script &&
+      sels_ok_b k (length pop) mu (Z.to_nat lambda_) (map os_idx sels) &&
       match full_kind p w script k mu lambda_ cxpb mutpb h0 draws pop (map os_idx sels),
             fcheck_gens (fstep_kind p w script k lambda_ cxpb mutpb) k mu 1 s0 sels with
       | FOk e, Some e' =>
@@ -181,6 +199,8 @@ Definition why (c : case) : nat :=
       let h0 := heap_of objs in
       let s0 := fgen0 (ev_fun p) (wfle w) (finit h0 draws pop) in
       if negb (finit_ok_b p objs pop) then 10 else
+      if negb (script_ok_b script) then 11 else
+      if negb (sels_ok_b k (length pop) mu (Z.to_nat lambda_) (map os_idx sels)) then 12 else
       match full_kind p w script k mu lambda_ cxpb mutpb h0 draws pop (map os_idx sels) with
       | FOk e =>
           if negb (calls_eqb (f_calls e) o_calls) then 1
